@@ -107,3 +107,11 @@ Proof.
   intros H. unfold gen_apply_kwargs_Oscar, gen_apply_kwargs_Jetscape, gen_apply_kwargs_PObj.
   rewrite H. repeat split; reflexivity.
 Qed.
+
+(* data of the non-vacuity example in Properties/C05.v *)
+Definition ex5 (i : Z) (ch : Z) : pobs :=
+  mkP i (fun a => match a with A_charge => Ret (fofZ ch) | _ => Ret NaN end).
+Definition ex5_dict : list (string * pyv) :=
+  [("charged_particles", VBool true); ("keep_hadrons", VBool false);
+   ("multiplicity_cut", VTuple [VInt 1; VNone])]%string.
+Definition ex5_evs : list (list pobs) := [[ex5 1 1; ex5 2 0]; [ex5 3 0]; []; [ex5 4 (-1)]].
